@@ -125,6 +125,19 @@ def collections_for(n, rng, quick):
     return out
 
 
+def unbundled_local_tables(m):
+    """True when the message selects local tables (local version != 0) whose <centre>_<subcentre>/<version> directory is
+    not among the bundled tables (judged from the directory listing, not through the library)"""
+    try:
+        lv = m.local_table_version.value
+        if not lv:
+            return False
+        root = os.path.join(os.environ.get('VERIF_REPO', '/repo'), 'pybufrkit', 'tables', str(m.master_table_number.value))
+        return not os.path.isdir(os.path.join(root, '%d_%d' % (m.originating_centre.value, m.originating_subcentre.value), str(lv)))
+    except Exception:
+        return False
+
+
 def check_pairs(ctx, dec, enc, b, rmeta, spec, origin):
     """b: message bytes; rmeta: per-subset list of R field meta (or None)."""
     rng = ctx.rng
@@ -161,8 +174,13 @@ def check_pairs(ctx, dec, enc, b, rmeta, spec, origin):
             nb = enc.process(data)
             m2 = dec.process(nb.serialized_bytes)
         except Exception as e:
-            ctx.violate('subset-roundtrip-raises:%s/%s/%s' % (type(e).__name__, mode, rk),
-                        'subset(%r) -> encode -> decode raised %s: %s' % (list(I), type(e).__name__, str(e)[:120]),
+            sig = 'subset-roundtrip-raises:%s/%s/%s' % (type(e).__name__, mode, rk)
+            if isinstance(e, OSError) and unbundled_local_tables(m):
+                # mechanism: the message names local tables of a sub-centre that is not bundled; the decoder falls back to
+                # <centre>_0, the encoder (normalize=0) looks for the exact directory and fails with an OSError
+                sig = 'subset-encode-refused/local-tables-of-subcentre-not-bundled'
+                ctx.count('subset_of_message_with_unbundled_local_tables')
+            ctx.violate(sig, 'subset(%r) -> encode -> decode raised %s: %s' % (list(I), type(e).__name__, str(e)[:120]),
                         cspec, exc=e)
             continue
         ctx.count('source_digest_checks')
@@ -238,7 +256,10 @@ def cli_subset(ctx, dec, b, spec, scratch, tag):
         f.write(b)
     so, se, exc, code = run_cli(['subset', ','.join(str(i) for i in I), src, dst])
     if exc is not None or se.strip() or not os.path.exists(dst):
-        ctx.violate('cli-subset-fails', 'pybufrkit subset failed: %r %s' % (exc, se[:150]), dict(spec, indices=I))
+        sig = 'cli-subset-fails'
+        if exc is None and 'No such file or directory' in se and unbundled_local_tables(m):
+            sig = 'subset-encode-refused/local-tables-of-subcentre-not-bundled'   # same mechanism through the command
+        ctx.violate(sig, 'pybufrkit subset failed: %r %s' % (exc, se[:150]), dict(spec, indices=I))
         return
     ctx.count('cli_subset_runs')
     m2 = dec.process(open(dst, 'rb').read())
@@ -258,8 +279,10 @@ def run(ctx):
     try:
         # corpus: multi-subset files
         repo = os.environ.get('VERIF_REPO', '/repo')
+        # (quick: tests/data plus one benchmark file that names local tables of an unbundled sub-centre - known finding)
         files = sorted(glob.glob(os.path.join(repo, 'tests', 'data', '*.bufr')) +
-                       ([] if ctx.quick else glob.glob(os.path.join(repo, 'tests', 'benchmark_data', '*.bufr'))))
+                       (glob.glob(os.path.join(repo, 'tests', 'benchmark_data', 'aaen_55.bufr')) if ctx.quick
+                        else glob.glob(os.path.join(repo, 'tests', 'benchmark_data', '*.bufr'))))
         for i, f in enumerate(files):
             if not ctx.mine(i):
                 continue
